@@ -51,7 +51,7 @@ PROPS["C12"]["trusted_base"] = CONV_TB + TLS_TB
 
 PROPS["C20"] = {
     "kinds": ["life"],
-    "rule": "life: the REAL smtp.Server driven by a scripted net.Listener (connection / temporary net.Error / permanent error per Accept) and scripted Close / Shutdown(ctx) / peer-disconnect / ctx-expiry events; every op sequence over the 8-letter alphabet up to length 3 (thorough: 4), seeded random scripts of length 4-9, and the back-off cap (10 temporary errors: 5..640,1000,1000 ms). Recorded: what Serve/Close/Shutdown returned, which connections the server closed, the measured back-off delays. Compared with ServerLife.v (CheckLife.check_life) and judged against the property text on the recorded behaviour alone (monitor mon_step/mon_final). The data-race half is not case based: tools/accesses regenerates coq/gen/Accesses.v from /repo and LocksetInst.conn_races_exactly is re-proved by vm_compute on every run.",
+    "rule": "life: the REAL smtp.Server driven by a scripted net.Listener (connection / temporary net.Error / permanent error per Accept) and scripted Close / Shutdown(ctx) / peer-disconnect / ctx-expiry events; every op sequence over the 10-letter alphabet {conn, temp, perm, close, shutdown, finish 0, finish 1, expire, wclose, wshutdown} up to length 3 (thorough: 4), seeded random scripts of length 4-9, and the back-off cap (10 temporary errors: 5..640,1000,1000 ms). wclose / wshutdown are Close / Shutdown with a connection in the window between Accept's return and its handler's registration in s.conns, forced deterministically: the scripted listener's Close (called by the server under s.locker, after s.done is closed) hands the connection to the pending Accept and returns when Serve has spawned the handler (tag accept-window). Recorded: what Serve/Close/Shutdown returned, which connections the server closed, the measured back-off delays. Compared with ServerLife.v (CheckLife.check_life) and judged against the property text on the recorded behaviour alone (monitor mon_step/mon_final). The data-race half is not case based: tools/accesses regenerates coq/gen/Accesses.v from /repo and LocksetInst.conn_races_exactly is re-proved by vm_compute on every run.",
     "trusted_base": [
         "tools/accesses (syntactic go/ast translator: field accesses, c.locker regions, calls, go literals, joins); it exits non-zero on any construct it cannot classify",
         "flattening of control flow: a function body is the sequence of ALL its accesses in source order (every branch, loop bodies once, deferred calls last); every real path's accesses are a subsequence with the same lock status",
@@ -62,7 +62,7 @@ PROPS["C20"] = {
     "assumptions": [
         "Session.Data / LMTPData return once their reader has failed (documented contract): built into Interleave.v's DFailed state",
         "the exported *Conn methods are the only entry points other goroutines use (Server.Close -> Conn.Close; a backend that kept the *Conn)",
-        "Close and Shutdown are atomic in ServerLife.v: two CONCURRENT calls are outside the model (DESIGN F21)",
+        "Close and Shutdown are atomic steps of ServerLife.v; the code implements this by testing and closing s.done under s.locker (repair of DESIGN F21) - the model does not interleave the inside of two concurrent calls; harness/race_test.go TestScenarioConcurrentClose checks on the real server that of 4 concurrent calls exactly one returns nil, the others ErrServerClosed, and none panics",
         "runtime panics (nil dereference etc.) are outside the models",
     ],
 }
@@ -72,7 +72,9 @@ def _c20_race_scenarios(tier, seed, work, sh):
     """Forced-schedule scenarios of harness/race_test.go under the race detector
     (runtime support of C20, not the proof).  A reported data race whose two
     go-smtp functions are a pair of LocksetInst.known_races is a known finding;
-    any other race, a hang (watchdog), a goroutine leak or a wrong reply is a violation."""
+    any other race, a hang (watchdog), a goroutine leak, a wrong reply or any other failing
+    scenario (a panic in concurrent Close/Shutdown calls, a connection accepted just before
+    Close / Shutdown that is served) is a violation."""
     import os, re
     verif = os.environ.get("VERIF_ROOT") or os.path.dirname(os.path.dirname(os.path.abspath(__file__)))
     src = open(os.path.join(verif, "coq/theories/LocksetInst.v")).read()
